@@ -336,6 +336,65 @@ def check(ctx):
                                   stmt=norm_stmt(Model.enclosing_stmt(bad)))
     if n6 < 2:
         raise AnalysisError('C19.R6 examined only %d lookups whose module differs from the starting module (floor 2)' % n6)
+    # the same for what is *remembered*: a container that was selected with the starting module (cache.setdefault(module_name, {}), self.compiled[module_name]) before a
+    # lookup re-bound the module variable belongs to the starting module; a name taken from the descriptor the lookup found may live in another module, and filing it there
+    # gives the starting module's own, different type of that name the remembered answer.
+    n6b = 0
+    for g_ in base_cls.methods.values():
+        gparams = [p_ for p_ in flow.param_names(g_) if 'module' in p_]
+        if not gparams:
+            continue
+        for a_ in walk_no_nested(g_):
+            if not (isinstance(a_, ast.Assign) and isinstance(a_.value, ast.Call) and isinstance(a_.value.func, ast.Attribute) and a_.value.func.attr in pair_lookups
+                    and isinstance(a_.targets[0], ast.Tuple) and len(a_.targets[0].elts) == 2 and all(isinstance(e_, ast.Name) for e_ in a_.targets[0].elts)):
+                continue
+            found, found_mod = a_.targets[0].elts[0].id, a_.targets[0].elts[1].id
+            if found_mod not in gparams:
+                continue           # the other form (two module variables) is handled above
+            # containers selected with the module parameter before the lookup
+            home = {b_.targets[0].id for b_ in walk_no_nested(g_) if isinstance(b_, ast.Assign) and isinstance(b_.targets[0], ast.Name) and b_.lineno < a_.lineno
+                    and found_mod in names_in(b_.value) and (isinstance(b_.value, ast.Subscript) or (isinstance(b_.value, ast.Call) and isinstance(b_.value.func, ast.Attribute)
+                                                                                                       and b_.value.func.attr in ('setdefault', 'get')))}
+            if not home:
+                continue
+            n6b += 1
+            # names that carry something taken from the found descriptor (transitively: assigned from it, appended to a list, iterated over)
+            foreign = {found}
+            grew = True
+            while grew:
+                grew = False
+                for b_ in walk_no_nested(g_):
+                    if isinstance(b_, ast.Assign) and b_.lineno >= a_.lineno and names_in(b_.value) & foreign:
+                        for t_ in b_.targets:
+                            for x_ in flow.target_names(t_):
+                                if x_ not in foreign and x_ not in home:
+                                    foreign.add(x_)
+                                    grew = True
+                    elif isinstance(b_, ast.Call) and isinstance(b_.func, ast.Attribute) and b_.func.attr in ('append', 'add', 'extend', 'insert') and isinstance(b_.func.value, ast.Name) \
+                            and any(names_in(x_) & foreign for x_ in b_.args) and b_.func.value.id not in foreign and b_.func.value.id not in home:
+                        foreign.add(b_.func.value.id)
+                        grew = True
+                    elif isinstance(b_, (ast.For, ast.comprehension)) and names_in(b_.iter) & foreign:
+                        for x_ in flow.target_names(b_.target):
+                            if x_ not in foreign:
+                                foreign.add(x_)
+                                grew = True
+            bad = None
+            for b_ in walk_no_nested(g_):
+                if isinstance(b_, ast.Assign):
+                    for t_ in b_.targets:
+                        if isinstance(t_, ast.Subscript) and isinstance(t_.value, ast.Name) and t_.value.id in home and names_in(t_.slice) & foreign:
+                            bad = b_
+                elif isinstance(b_, ast.Call) and isinstance(b_.func, ast.Attribute) and b_.func.attr in ('append', 'add', 'setdefault', 'update') and isinstance(b_.func.value, ast.Name) \
+                        and b_.func.value.id in home and any(names_in(x_) & foreign for x_ in b_.args):
+                    bad = b_
+            ctx.instance('C19.R6', '%s: %s selected with `%s` before `%s, %s = %s(...)`' % (Model.qual(g_), sorted(home), found_mod, found, found_mod, a_.value.func.attr),
+                         'ok' if bad is None else 'VIOLATION', node=a_, file=BASE)
+            if bad is not None:
+                ctx.violation('C19.R6', BASE, bad, Model.qual(g_),
+                              '`%s` files a name taken from a descriptor that %s found - possibly in another module - in %s, which was selected with the module the lookup started from: the '
+                              'starting module\'s own type of that name gets the answer remembered for the other module\'s type (a tagged use of it is given the wrong EXPLICIT / IMPLICIT kind)'
+                              % (norm_stmt(bad), a_.value.func.attr, sorted(home)[0]), stmt='name of another module filed under the starting module')
 
     # ---- R5
     def key_chain(e):
